@@ -94,7 +94,7 @@ def run(out, tier, rng, work):
                           how='./check replay <this file> re-runs the scenario on /repo and prints the oracle verdict'))
             break
     # closed-loop correspondence: the network model of theorem C01_closed_loop_delivers against two real stacks
-    n, mism, errors, bad = netcorr.run(work, rng, 16 if tier == 'quick' else 160, big=(tier != 'quick'), tag='c01net')
+    n, mism, errors, bad = netcorr.run(work, rng, 16 if tier == 'quick' else 160, big=(tier != 'quick'), tag='c01net', only='21')
     out.extra['closed_loop_cases'] = n
     out.traces_validated += n
     for c, sc, what in bad[:1]:
